@@ -1,11 +1,12 @@
 #!/venv/bin/python
 """Copy vetted sub-agent changes from /tmp/seeded-out into /verif/seeded/<id>/ (patch.diff, demo.py, meta.json)."""
 import json, os, shutil, sys
-SRC="/tmp/seeded-out"; DST="/verif/seeded"
+SRC=sys.argv[1] if len(sys.argv)>1 else "/tmp/seeded-out"; DST="/verif/seeded"
+SUFFIX=(("a","b") if len(sys.argv)<3 else tuple(sys.argv[2]))
 os.makedirs(DST, exist_ok=True)
 rows=[]
 for p in sorted(d for d in os.listdir(SRC) if d.startswith("C") and os.path.isdir(os.path.join(SRC,d))):
-    for k,suffix in ((1,"a"),(2,"b")):
+    for k,suffix in ((1,SUFFIX[0]),(2,SUFFIX[1])):
         d=os.path.join(SRC,p,"change%d"%k); v=os.path.join(SRC,"vet-%s-%d.json"%(p,k))
         if not (os.path.exists(os.path.join(d,"patch.diff")) and os.path.exists(v)): continue
         s=open(v).read()
